@@ -161,7 +161,12 @@ func (m *Message) Root() (Ptr, error) {
 	if err != nil {
 		return Ptr{}, annotate(err).errorf("read root")
 	}
-	p, err := s.root().At(0)
+	roots := s.root()
+	if !roots.IsValid() {
+		// First segment is shorter than one word.
+		return Ptr{}, newError("read root: first segment has no root pointer")
+	}
+	p, err := roots.At(0)
 	if err != nil {
 		return Ptr{}, annotate(err).errorf("read root")
 	}
